@@ -13,7 +13,7 @@ SPEC = {
         ('K-update(ties keep the stored entry)', 'update', '^update:returns-replaced'),
         ('K-prune(tie extension)', 'prune', 'prune:(all-ties|only-ties)')],
     'bounded': [
-        ('map-order-permutations', suites.case_C10, 300, 6000, RULE + '; ' + 'non-trivial = >= 3 nodes or an exact tie in some column', '')],
+        ('map-order-permutations', suites.case_C10, 1500, 25000, RULE + '; ' + 'non-trivial = >= 3 nodes or an exact tie in some column', '')],
 }
 
 
